@@ -679,6 +679,15 @@ func checkMemoryFencing(c *Ctx, rule string) {
 		}
 		what := e.Kind + "->" + strings.Trim(e.ToStr, "{}")
 		if e.Fn.Name() == e.Root {
+			// the expiry release inside a settle operation (reachable only on the expired edge) is not a settle
+			// mutation; it is decided by C02.R4 / C04.R3
+			var expEdges []Edge
+			for k := range expiredEdgesOf(e.Fn) {
+				expEdges = append(expEdges, k)
+			}
+			if onlyExpired, _ := p.MustPass(e.Fn, e.Instr, expEdges); onlyExpired && len(expEdges) > 0 {
+				continue
+			}
 			check(e.Root, e.Fn, e.Instr, what, e.From)
 			continue
 		}
@@ -738,6 +747,11 @@ func checkMemoryFencing(c *Ctx, rule string) {
 		if fn.Name() != "Extend" {
 			continue
 		}
+		fn := p.View(fn)
+		var expEdges []Edge
+		for k := range expiredEdgesOf(fn) {
+			expEdges = append(expEdges, k)
+		}
 		for _, b := range fn.Blocks {
 			for _, ins := range b.Instrs {
 				st, ok := ins.(*ssa.Store)
@@ -746,6 +760,9 @@ func checkMemoryFencing(c *Ctx, rule string) {
 				}
 				if fa, ok := st.Addr.(*ssa.FieldAddr); ok {
 					if tn, f, _ := fieldAddrName(fa); tn == "Envelope" && f == "LeaseUntil" {
+						if only, _ := p.MustPass(fn, st, expEdges); only && len(expEdges) > 0 {
+							continue // part of the expiry release
+						}
 						from := ssTop
 						// from-set of the pointer at this point is not recorded as an event; recompute via a State test edge
 						var se []Edge
